@@ -5,8 +5,7 @@ Status: bounded run-time contracts only (props/bounded_C20.py) until the proof o
 from vf.helpers import bounded_tasks
 
 META = dict(
-    level='exploration',
-    expects_obligations=False,
+    level='other',
     explanation='Run-time contracts on the real functions over the bounded domain stated per driver (bounded stand-in; nothing proved).',
     trusted_base=['oracles of props/bounded_C20.py (independent of dadi: exact rationals, mpmath, dense linear algebra, explicit index loops)'],
     rule='cases enumerated or sampled as stated in each driver\'s bound; a case is non-trivial unless the driver marks it degenerate; distinct by its key',
@@ -14,11 +13,17 @@ META = dict(
 
 
 def tasks(tier):
-    return bounded_tasks('C20', tier)
+    from vf.core import Task
+    return [Task('props.C20:ob_memo', name='C20/memo-keys', timeout=120)] + bounded_tasks('C20', tier)
+
+
+def ob_memo():
+    from contracts.py_memo import all_memo_obligations
+    return all_memo_obligations('C20', only=None)
 
 
 MANIFEST_ENTRY = dict(
-    category='exploration',
+    category='other',
     engine='bounded',
     technique='bounded run-time contracts on the real functions with independent oracles (stand-in for the contract proofs, never counted as proved)',
     text='Frame (inputs hashed before/after), aliasing, memory layouts, call-history and hash-seed independence over a table of 87 API calls.',
